@@ -1,7 +1,7 @@
 """C01 - see trav_props.py (traversal model, correspondence on hand-driven coroutines, monitors)."""
 from harness.props import trav_props
 
-EXTRA_TARGETS = ["Check/Trav.vo"]
+EXTRA_TARGETS = ["Check/Trav.vo", "Check/Scan.vo"]
 
 
 def run(ctx, replay=None):
